@@ -330,12 +330,80 @@ fn in_range(x: u64, lo: &Bound<u64>, hi: &Bound<u64>) -> bool {
     a && b
 }
 
-/// insert_range over every pair of bounds from the boundary alphabet. Unbounded ends are only
-/// combined with starts in the last fragments so that the bitmap stays small.
+/// one insert_range case on an empty map: count, membership on `probe_pts`, no left-over empty entry.
+/// `suffix` is appended to the classification keys ("" or "/last-fragment").
+fn check_range(lo: Bound<u64>, hi: Bound<u64>, probe_pts: &[u64], suffix: &str, cov: &mut Cov, viol: &mut Vec<Violation>) {
+    // model count (u128 to be safe)
+    let first: u128 = match lo {
+        Bound::Included(s) => s as u128,
+        Bound::Excluded(s) => s as u128 + 1,
+        Bound::Unbounded => 0,
+    };
+    let last_excl: u128 = match hi {
+        Bound::Included(e) => e as u128 + 1,
+        Bound::Excluded(e) => e as u128,
+        Bound::Unbounded => 1u128 << 64,
+    };
+    let n: u128 = last_excl.saturating_sub(first);
+    if n > (1 << 18) {
+        // a range covering (most of) a whole fragment would allocate 65536 dense roaring
+        // containers; outside the stated scope
+        return;
+    }
+    let case = json!({"kind":"insert_range","lo":format!("{lo:?}"),"hi":format!("{hi:?}")});
+    let mut t = RowIdTreeMap::new();
+    let r = vcore::catch(|| t.insert_range((lo, hi)));
+    cov.eval(if n > 0 {
+        Some(vcore::hash64(case.to_string().as_bytes()))
+    } else {
+        Some(vcore::hash64(format!("empty{case}").as_bytes()))
+    });
+    let empty_kind = if n == 0 { "empty" } else { "nonempty" };
+    match r {
+        Err(p) => viol.push(Violation::new(
+            "treemap-insert-range",
+            &format!("treemap/insert_range/{empty_kind}/panic{suffix}"),
+            format!("insert_range({lo:?},{hi:?}) panicked: {p}"),
+            case,
+        )),
+        Ok(cnt) => {
+            if cnt as u128 != n {
+                viol.push(Violation::new(
+                    "treemap-insert-range",
+                    &format!("treemap/insert_range/{empty_kind}/count{suffix}"),
+                    format!("insert_range({lo:?},{hi:?}) returned {cnt}, range holds {n}"),
+                    case.clone(),
+                ));
+            }
+            if let Some(p) = probe_pts.iter().find(|p| t.contains(**p) != in_range(**p, &lo, &hi)) {
+                viol.push(Violation::new(
+                    "treemap-insert-range",
+                    &format!("treemap/insert_range/{empty_kind}/membership{suffix}"),
+                    format!("after insert_range({lo:?},{hi:?}): contains({p:#x}) = {}", t.contains(*p)),
+                    case.clone(),
+                ));
+            }
+            if n == 0 && !t.is_empty() && t.len() == Some(0) {
+                // an empty range must leave the map without members (checked above);
+                // a left-over empty fragment entry is reported separately
+                viol.push(Violation::new(
+                    "treemap-insert-range",
+                    &format!("treemap/insert_range/empty/leaves-empty-entry{suffix}"),
+                    format!("insert_range({lo:?},{hi:?}) leaves a non-empty map of length 0"),
+                    case,
+                ));
+            }
+        }
+    }
+}
+
+/// insert_range over every pair of bounds from the boundary alphabet. Unbounded starts are only
+/// combined with ends in the first fragment so that the bitmap stays small; a second alphabet at
+/// the top of u64 (last fragment, 2^64-2^32..) adds the unbounded end.
 fn treemap_ranges(cov: &mut Cov, viol: &mut Vec<Violation>) {
     let w = 1u64 << 32;
     let vals = [0u64, 1, 3, w - 1, w, w + 1, 2 * w - 1, 2 * w, 2 * w + 2];
-    let probe_pts: Vec<u64> = {
+    let probes_of = |vals: &[u64], extra: &[u64]| -> Vec<u64> {
         let mut v = vec![];
         for x in vals {
             for d in [-1i64, 0, 1] {
@@ -344,12 +412,12 @@ fn treemap_ranges(cov: &mut Cov, viol: &mut Vec<Violation>) {
                 }
             }
         }
-        v.push(5);
-        v.push(w + 7);
+        v.extend_from_slice(extra);
         v.sort();
         v.dedup();
         v
     };
+    let probe_pts = probes_of(&vals, &[5, w + 7]);
     for (si, s) in vals.iter().enumerate() {
         for sk in 0..3usize {
             if sk == 2 && si > 0 {
@@ -357,81 +425,23 @@ fn treemap_ranges(cov: &mut Cov, viol: &mut Vec<Violation>) {
             }
             for e in vals.iter() {
                 for ek in 0..2usize {
-                    let lo = bound_of(sk, *s);
-                    let hi = bound_of(ek, *e);
-                    // model count (u128 to be safe)
-                    let first: u128 = match lo {
-                        Bound::Included(s) => s as u128,
-                        Bound::Excluded(s) => s as u128 + 1,
-                        Bound::Unbounded => 0,
-                    };
-                    let last_excl: u128 = match hi {
-                        Bound::Included(e) => e as u128 + 1,
-                        Bound::Excluded(e) => e as u128,
-                        Bound::Unbounded => unreachable!(),
-                    };
-                    let n: u128 = last_excl.saturating_sub(first);
-                    if n > (1 << 18) {
-                        // a range covering (most of) a whole fragment would allocate 65536 dense
-                        // roaring containers; outside the stated scope
-                        continue;
-                    }
-                    // keep the roaring bitmaps small: skip ranges wider than 2^33+8 only in count
-                    let case = json!({"kind":"insert_range","lo":format!("{lo:?}"),"hi":format!("{hi:?}")});
-                    let mut t = RowIdTreeMap::new();
-                    let r = vcore::catch(|| t.insert_range((lo, hi)));
-                    cov.eval(if n > 0 {
-                        Some(vcore::hash64(case.to_string().as_bytes()))
-                    } else {
-                        Some(vcore::hash64(format!("empty{case}").as_bytes()))
-                    });
-                    let empty_kind = if n == 0 { "empty" } else { "nonempty" };
-                    match r {
-                        Err(p) => viol.push(Violation::new(
-                            "treemap-insert-range",
-                            &format!("treemap/insert_range/{empty_kind}/panic"),
-                            format!("insert_range({lo:?},{hi:?}) panicked: {p}"),
-                            case,
-                        )),
-                        Ok(cnt) => {
-                            if cnt as u128 != n {
-                                viol.push(Violation::new(
-                                    "treemap-insert-range",
-                                    &format!("treemap/insert_range/{empty_kind}/count"),
-                                    format!("insert_range({lo:?},{hi:?}) returned {cnt}, range holds {n}"),
-                                    case.clone(),
-                                ));
-                            }
-                            if let Some(p) = probe_pts
-                                .iter()
-                                .find(|p| t.contains(**p) != in_range(**p, &lo, &hi))
-                            {
-                                viol.push(Violation::new(
-                                    "treemap-insert-range",
-                                    &format!("treemap/insert_range/{empty_kind}/membership"),
-                                    format!(
-                                        "after insert_range({lo:?},{hi:?}): contains({p:#x}) = {}",
-                                        t.contains(*p)
-                                    ),
-                                    case.clone(),
-                                ));
-                            }
-                            if n == 0 && (!t.is_empty() || t.len() != Some(0)) && !t.is_empty() {
-                                // an empty range must leave the map without members (checked above);
-                                // a left-over empty fragment entry is reported separately
-                                if t.len() == Some(0) {
-                                    viol.push(Violation::new(
-                                        "treemap-insert-range",
-                                        "treemap/insert_range/empty/leaves-empty-entry",
-                                        format!("insert_range({lo:?},{hi:?}) leaves a non-empty map of length 0"),
-                                        case,
-                                    ));
-                                }
-                            }
-                        }
-                    }
+                    check_range(bound_of(sk, *s), bound_of(ek, *e), &probe_pts, "", cov, viol);
                 }
             }
+        }
+    }
+    // top of u64: the last fragment (high word u32::MAX) and the unbounded end
+    let m = u64::MAX;
+    let top = [m - w, m - w + 1, m - 3, m - 2, m - 1, m];
+    let top_probes = probes_of(&top, &[0, w, m - 7]);
+    for s in top.iter() {
+        for sk in 0..2usize {
+            for e in top.iter() {
+                for ek in 0..2usize {
+                    check_range(bound_of(sk, *s), bound_of(ek, *e), &top_probes, "/last-fragment", cov, viol);
+                }
+            }
+            check_range(bound_of(sk, *s), Bound::Unbounded, &top_probes, "/last-fragment", cov, viol);
         }
     }
 }
@@ -629,8 +639,46 @@ fn masks(cov: &mut Cov, viol: &mut Vec<Violation>) {
     }
 }
 
+/// `--replay`: re-execute the artefact's case (the family enumerator restricted to that case) and
+/// report only the violations of exactly that case.
+fn replay(case: &serde_json::Value) -> Vec<Violation> {
+    let mut cov = Cov::new();
+    let mut viol = vec![];
+    match case["kind"].as_str().unwrap_or("") {
+        "treemap_pair" => {
+            let a: Vec<usize> = serde_json::from_value(case["a"].clone()).unwrap_or_default();
+            let b: Vec<usize> = serde_json::from_value(case["b"].clone()).unwrap_or_default();
+            let budget = std::sync::atomic::AtomicIsize::new(isize::MAX);
+            treemap_pairs(&mut cov, &mut viol, &[a], &[b], &budget);
+            viol.retain(|v| v.case["op"] == case["op"]);
+        }
+        "treemap_remove" | "treemap_retain" | "treemap_insert" => treemap_unary(&mut cov, &mut viol),
+        "insert_range" => treemap_ranges(&mut cov, &mut viol),
+        "mask" | "mask_also" | "mask_pair" | "treemap_mask" => masks(&mut cov, &mut viol),
+        "expr" => return crate::c21_expr::replay(case),
+        other => vcore::machinery_error(&format!("C21 replay: unknown case kind {other:?}")),
+    }
+    // same case = same input; the probe that exposes it is part of the verdict, not of the input
+    let strip = |v: &serde_json::Value| {
+        let mut v = v.clone();
+        if let Some(o) = v.as_object_mut() {
+            o.remove("probe");
+            o.remove("q");
+        }
+        v
+    };
+    let want = strip(case);
+    viol.retain(|v| strip(&v.case) == want);
+    viol
+}
+
 pub fn run(ctx: &Ctx) -> Outcome {
     let mut out = Outcome::new("exploration");
+    if let Some(art) = ctx.replay_case() {
+        out.violations = replay(&art["case"]);
+        out.set("replayed", true);
+        return out;
+    }
     let all = all_sets();
     // (a) pairs in parallel
     let chunks = vcore::smallx::chunks(&all, ctx.workers * 2);
@@ -658,7 +706,7 @@ pub fn run(ctx: &Ctx) -> Outcome {
     cov.sample(json!({"kind":"insert_range","lo":"Included(4294967295)","hi":"Excluded(4294967296)"}));
     cov.fill(
         &mut out,
-        "odometer over: 289x289 RowIdTreeMap pairs (2 fragments x {16 offset subsets, Full}) x {|,&,-}; unary remove/insert/retain on all 289 maps x 18 probes; insert_range over all bound pairs from the 32-bit boundary alphabet; all 17x17 (allow,block) RowIdMask shapes with !,normalize,iter_ids,max_len,arrow,also_*; all 289x289 mask pairs for &,|; ScalarIndexExpr trees of depth<=2 over stub leaves. non-trivial = result neither empty nor universal on the probe set / operands that differ / non-degenerate range",
+        "odometer over: 289x289 RowIdTreeMap pairs (2 fragments x {16 offset subsets, Full}) x {|,&,-}; unary remove/insert/retain on all 289 maps x 18 probes; insert_range over all bound pairs from the 32-bit boundary alphabet and from the top-of-u64 alphabet (last fragment, unbounded end); all 17x17 (allow,block) RowIdMask shapes with !,normalize,iter_ids,max_len,arrow,also_*; all 289x289 mask pairs for &,|; ScalarIndexExpr trees of depth<=2 over stub leaves. non-trivial = result neither empty nor universal on the probe set / operands that differ / non-degenerate range",
         true,
     );
     out.assume("membership is observed on a probe set: every universe address, one offset outside the partial universe per fragment, u32::MAX offsets and a fragment outside the universe");
